@@ -94,6 +94,30 @@ func factsPrinter(o *out, ps pkgs) {
 		})
 	}
 	o.def("printerCallSites", "List (String × String × String × List String)", joinTuples(sites))
+	// every non-constant string the printers write into the document
+	var pw []string
+	for _, fn := range []struct{ name, recv string }{{"PrintTree", "Statement"}, {"PrintNodeTree", "Node"}, {"appendPropertyNodes", "Node"}, {"appendAnnotations", "Node"}, {"appendDegreeOfVariability", "Node"}} {
+		fd := findFunc(p, fn.name, fn.recv)
+		if fd == nil {
+			fail("%s not found", fn.name)
+		}
+		ast.Inspect(fd.Body, func(n ast.Node) bool {
+			call, ok := n.(*ast.CallExpr)
+			if !ok {
+				return true
+			}
+			sel, ok := call.Fun.(*ast.SelectorExpr)
+			if !ok || sel.Sel.Name != "WriteString" || len(call.Args) != 1 {
+				return true
+			}
+			if _, isConst := constStr(p, call.Args[0]); isConst {
+				return true
+			}
+			pw = append(pw, "("+lq(fn.name)+", "+lq(exprStr(call.Args[0]))+")")
+			return true
+		})
+	}
+	o.def("printerDynamicWrites", "List (String × String)", joinTuples(pw))
 	// parameter names of the three printers
 	var params []string
 	for _, fn := range []struct{ name, recv string }{{"PrintTree", "Statement"}, {"PrintNodeTree", "Node"}, {"appendPropertyNodes", "Node"}} {
@@ -159,6 +183,89 @@ func factsPrinter(o *out, ps pkgs) {
 		return false
 	})
 	o.def("propertyComponentTable", "List (String × List String)", joinTuples(props))
+}
+
+// ---- statement: copy wiring, leaf array order, flat string order --------------------------
+
+func factsStatement(o *out, ps pkgs) {
+	p := ps["IG-Parser/core/tree"]
+	cc := findFunc(p, "CopyComponentsFromStatement", "")
+	if cc == nil {
+		fail("CopyComponentsFromStatement not found")
+	}
+	var copies []string
+	for _, st := range cc.Body.List {
+		as, ok := st.(*ast.AssignStmt)
+		if !ok || len(as.Lhs) != 1 || len(as.Rhs) != 1 {
+			continue
+		}
+		call, ok := as.Rhs[0].(*ast.CallExpr)
+		if !ok || exprStr(call.Fun) != "copyComponentValue" || len(call.Args) != 2 {
+			continue
+		}
+		copies = append(copies, "("+lq(exprStr(as.Lhs[0]))+", "+lq(exprStr(call.Args[0]))+", "+lq(exprStr(call.Args[1]))+")")
+	}
+	if len(copies) == 0 {
+		fail("copy wiring not found")
+	}
+	o.def("copyWiring", "List (String × String × String)", joinTuples(copies))
+	// copyComponentValue: operator used to combine target and source
+	cv := findFunc(p, "copyComponentValue", "")
+	if cv == nil {
+		fail("copyComponentValue not found")
+	}
+	var comb []string
+	ast.Inspect(cv.Body, func(n ast.Node) bool {
+		if call, ok := n.(*ast.CallExpr); ok && exprStr(call.Fun) == "Combine" && len(call.Args) == 3 {
+			opv, _ := constStr(p, call.Args[2])
+			comb = append(comb, exprStr(call.Args[0]), exprStr(call.Args[1]), opv)
+		}
+		return true
+	})
+	o.def("copyCombine", "List String", lstrs(comb))
+	// generateLeafArrays: order of getComponentLeafArray calls
+	gl := findFunc(p, "generateLeafArrays", "Statement")
+	if gl == nil {
+		fail("generateLeafArrays not found")
+	}
+	var order []string
+	ast.Inspect(gl.Body, func(n ast.Node) bool {
+		if call, ok := n.(*ast.CallExpr); ok && exprStr(call.Fun) == "getComponentLeafArray" && len(call.Args) == 7 {
+			sym, _ := constStr(p, call.Args[3])
+			f := ""
+			if sel, ok := call.Args[2].(*ast.SelectorExpr); ok {
+				f = sel.Sel.Name
+			}
+			order = append(order, "("+lq(f)+", "+lq(sym)+", "+exprStr(call.Args[4])+")")
+		}
+		return true
+	})
+	if len(order) == 0 {
+		fail("leaf array order not found")
+	}
+	o.def("leafArrayOrder", "List (String × String × Bool)", joinTuples(order))
+	// StringFlat: order of printComponent calls
+	for _, fn := range []string{"StringFlat", "StringFlatStatement"} {
+		fd := findFunc(p, fn, "Statement")
+		if fd == nil {
+			fail("%s not found", fn)
+		}
+		var calls []string
+		ast.Inspect(fd.Body, func(n ast.Node) bool {
+			if call, ok := n.(*ast.CallExpr); ok {
+				if sel, ok := call.Fun.(*ast.SelectorExpr); ok && sel.Sel.Name == "printComponent" && len(call.Args) == 7 {
+					sym, _ := constStr(p, call.Args[3])
+					f := ""
+					if s2, ok := call.Args[2].(*ast.SelectorExpr); ok {
+						f = s2.Sel.Name
+					}
+					calls = append(calls, "("+lq(f)+", "+lq(sym)+")")
+				}
+			}
+			return true
+		})
+		o.def("order_"+fn, "List (String × String)", joinTuples(calls))
+	}
 }
 
 // ---- degree of variability ---------------------------------------------------------------
@@ -395,7 +502,7 @@ func factsTabular(o *out, ps pkgs) {
 					f := exprStr(call.Fun)
 					f = strings.TrimPrefix(strings.TrimPrefix(f, "tabular."), "shared.")
 					switch f {
-					case "CleanInput", "performOutputSpecificAdjustments", "EscapeSymbolsForExport":
+					case "CleanInput", "performOutputSpecificAdjustments", "EscapeSymbolsForExport", "escapeForTreeOutput":
 						a := []string{}
 						for _, x := range call.Args {
 							a = append(a, exprStr(x))
